@@ -17,6 +17,14 @@ object's key and of an unloaded key, lazy load of an expired collection whose me
 were re-parented, lazy load of a many-to-one, lazy load of ``viewonly=True`` relationships
 (filtered one-to-many ``A.hot_bs``, filtered many-to-many ``T.big_owners``).
 
+Round 2 adds every Session entry point x statement kind (``scalar`` / ``execute`` /
+``scalars`` with a Core ``Table`` select or ``text()``, ORM ``scalar``, ``get_one``, a Core
+no-op UPDATE judged by its rowcount) and *deferred fetches*: a lead ORM SELECT with a
+post-load loader (selectinload / subqueryload / immediateload / the mapper default) is
+executed first, the pending changes are made afterwards - before its rows are fetched, or
+between ``yield_per`` / ``partitions()`` batches - and the collections the post-load
+SELECTs build are compared (the gap never writes the lead table itself).
+
 Oracle: (1) result snapshots (identity + loaded column values read from ``__dict__``;
 scalars as values) are equal twin vs twin; an exception in one twin must occur in the
 other (same type); (2) DBAPI spy: the multiset of INSERT/UPDATE/DELETE statements twin A
@@ -73,7 +81,7 @@ META = {
     "exhaustive": {"quick": False, "thorough": False},
     "require": ["cases_compared", "autoflush_dml_observed", "dml_before_select_checked", "negative_control_differs",
                 "get_ops", "lazy_ops", "legacy_ops", "viewonly_lazy_ops", "readd_histories",
-                "readd_or_delete_rows_checked"],
+                "readd_or_delete_rows_checked", "core_scalar_ops", "entrypoint_ops", "deferred_fetch_ops"],
     "assumptions": ["an explicit Session.flush() followed by the read defines the reference result"],
 }
 
@@ -282,17 +290,33 @@ def gen_read(rng, zoo, pop, hist):
         cands = [c for c, _ in touched] + [c for c, _ in new_objs] + [fam(c) for c, _ in deleted]
         return rng.choice(cands) if cands and rng.random() < 0.75 else rng.choice(["A", "B", "C", "T", "P", "E"])
 
-    if r < 0.22:
+    if r < 0.14:
+        # every Session entry point x statement kind: Core Table selects, text(), ORM
+        # scalar(), get_one(), a Core DML statement
+        cls = pick_cls()
+        return {"kind": rng.choice(["core_scalar_table", "core_scalar_text", "core_scalar_table", "core_scalar_text",
+                                    "core_execute_table", "core_execute_text", "core_scalars_table",
+                                    "orm_scalar", "get_one", "core_dml_rowcount"]),
+                "cls": cls, "pred": pred_for(cls) if rng.random() < 0.6 else None,
+                "pk": rng.choice([x[1] for x in new_objs if x[0] == cls] + pks(pop, cls)[:2] + [999])}
+    if r < 0.26:
+        # a lead ORM SELECT with a post-load loader is executed *first*; the pending changes
+        # are made before (the rest of) its rows are fetched
+        lead, rel = rng.choice([("A", "bs"), ("A", "bs"), ("A", "es"), ("A", "tags"), ("B", "cs"), ("T", "owners")])
+        return {"kind": "deferred", "cls": lead, "rel": rel,
+                "loader": rng.choice(["selectin", "selectin", "subquery", "immediate", "mapper_default"]),
+                "how": rng.choice(["execute_then_fetch", "execute_then_fetch", "yield_per", "partitions"])}
+    if r < 0.38:
         cls = pick_cls()
         return {"kind": rng.choice(["select_ents", "select_ents", "select_cols", "count", "legacy_all",
                                     "legacy_count", "legacy_first", "union", "exec_opt_scalars"]),
                 "cls": cls, "pred": pred_for(cls) if rng.random() < 0.7 else None}
-    if r < 0.40:
+    if r < 0.50:
         j = rng.choice([("B", "a", "A"), ("C", "b", "B"), ("A", "bs", "B"), ("A", "tags", "T"), ("E", "a", "A"),
                         ("A", "children", "A"), ("P", "a", "A")])
         return {"kind": rng.choice(["join", "any_has", "legacy_join"]), "cls": j[0], "rel": j[1], "tcls": j[2],
                 "pred": pred_for(j[2])}
-    if r < 0.62:
+    if r < 0.68:
         # Session.get of a pending object's key / a deleted key / an existing key
         pool = []
         if new_objs:
@@ -400,6 +424,38 @@ def do_read(sa, orm, R, zoo, s, rd, objs, control=None):
     def ex(stmt):
         return s.execute(stmt, execution_options=eo)
 
+    if kind.startswith("core_") or kind == "orm_scalar":
+        t = zoo.tables[TABLE[rd["cls"]]]
+        p = rd["pred"]
+        if kind.endswith("_text"):
+            w, params = "1 = 1", {}
+            if p:
+                w = f"{p['col']} {dict(eq='=', ne='!=', ge='>=')[p['op']]} :v"
+                params = {"v": p["v"]}
+            if kind == "core_scalar_text":
+                return s.scalar(sa.text(f"SELECT count(*) FROM {t.name} WHERE {w}"), params, execution_options=eo)
+            return [list(r) for r in s.execute(sa.text(f"SELECT id FROM {t.name} WHERE {w} ORDER BY id"), params,
+                                               execution_options=eo)]
+        crit = sa.true() if not p else {"eq": t.c[p["col"]] == p["v"], "ne": t.c[p["col"]] != p["v"],
+                                        "ge": t.c[p["col"]] >= p["v"]}[p["op"]]
+        if kind == "core_scalar_table":
+            return s.scalar(sa.select(sa.func.count()).select_from(t).where(crit), execution_options=eo)
+        if kind == "core_execute_table":
+            return [list(r) for r in s.execute(sa.select(t.c.id).where(crit).order_by(t.c.id), execution_options=eo)]
+        if kind == "core_scalars_table":
+            return list(s.scalars(sa.select(t.c.id).where(crit).order_by(t.c.id), execution_options=eo))
+        if kind == "orm_scalar":
+            return s.scalar(sa.select(sa.func.count(K.id)).where(build_pred(K, p) if p else sa.true()),
+                            execution_options=eo)
+        if kind == "core_dml_rowcount":
+            # a no-op Core UPDATE (col = col): its rowcount is the number of rows matching now
+            col = SETTABLE[rd["cls"]][0][0]
+            return s.execute(sa.update(t).where(crit).values({col: t.c[col]}), execution_options=eo).rowcount
+        raise AssertionError(kind)
+    if kind == "get_one":
+        return Raw("ent", s.get_one(K, rd["pk"], execution_options=eo))
+    if kind == "deferred":
+        return finish_deferred(sa, orm, R, zoo, s, rd, objs)
     if kind in ("select_ents", "exec_opt_scalars"):
         st = sa.select(K).order_by(K.id)
         if rd["pred"]:
@@ -467,6 +523,49 @@ def do_read(sa, orm, R, zoo, s, rd, objs, control=None):
     raise AssertionError(kind)
 
 
+def start_deferred(sa, orm, R, zoo, s, rd):
+    """Execute the lead statement (nothing is pending yet) and, for the batch forms, fetch
+    the first batch; returns the handle kept in ``objs["__deferred__"]``."""
+    K = zoo.cls[rd["cls"]]
+    st = sa.select(K).order_by(K.id)
+    fn = {"selectin": orm.selectinload, "subquery": orm.subqueryload, "immediate": orm.immediateload}
+    how = rd["how"]
+    loader = rd["loader"]
+    if how != "execute_then_fetch" and loader == "subquery":
+        loader = "selectin"       # yield_per rejects subquery eager loading (documented)
+    if loader != "mapper_default":
+        st = st.options(fn[loader](getattr(K, rd["rel"])))
+    if how != "execute_then_fetch":
+        st = st.execution_options(yield_per=1)
+    res = s.execute(st)
+    first = []
+    if how == "yield_per":
+        first = [res.fetchone()[0]]
+    elif how == "partitions":
+        first = [r[0] for r in next(res.partitions(1))]
+    first = [o for o in first if o is not None]
+    return {"res": res, "first": first}
+
+
+def finish_deferred(sa, orm, R, zoo, s, rd, objs):
+    h = objs["__deferred__"]
+    rest = [r[0] for r in (h["res"] if rd["how"] != "execute_then_fetch" else h["res"].unique())]
+    ri = zoo.rel(rd["cls"], rd["rel"])
+    out = []
+    for o in h["first"] + rest:
+        v = getattr(o, rd["rel"])
+        ids = [R.ident(x) for x in v]
+        out.append([R.ident(o), ids if (ri.total and ri.coll == "list") else sorted(ids)])
+    return out
+
+
+def touches_table(op, cls):
+    """Does a history operation write rows of ``cls``'s own table?"""
+    if op["op"] in ("new", "set", "set_m2o", "delete", "readd"):
+        return fam(op["cls"]) == cls
+    return False
+
+
 def is_dml(sql):
     return sql.lstrip().split(None, 1)[0].upper() in ("INSERT", "UPDATE", "DELETE")
 
@@ -509,7 +608,15 @@ def run_twin(sa, orm, R, zoo, engine, spy, hist, rd, mode):
     sa.event.listen(s, "loaded_as_persistent", lambda sess, inst: keep.append(inst))
     sa.event.listen(s, "pending_to_persistent", lambda sess, inst: keep.append(inst))
     try:
+        handle = None
+        if rd["kind"] == "deferred":
+            try:
+                handle = start_deferred(sa, orm, R, zoo, s, rd)
+            except sa.exc.InvalidRequestError:
+                out["skip"] = "deferred-lead-rejected"   # e.g. yield_per + mapper-level joined collection
+                return out
         outcomes, objs = apply_history(zoo, s, hist)
+        objs["__deferred__"] = handle
         out["history_outcomes"] = outcomes
         if any(o.startswith("abort:") for o in outcomes):
             out["skip"] = "history-flush-error"
@@ -536,7 +643,7 @@ def run_twin(sa, orm, R, zoo, engine, spy, hist, rd, mode):
                     return out
                 with s.no_autoflush:
                     s.expire(objs[k], [rd["rel"]])
-        if rd["kind"] == "get":
+        if rd["kind"] in ("get", "get_one"):
             # the property speaks of an *absent* identity: a key already in the identity
             # map (incl. an object marked deleted but not flushed) is served without SQL
             # and without autoflush, by design
@@ -545,6 +652,22 @@ def run_twin(sa, orm, R, zoo, engine, spy, hist, rd, mode):
                 out["skip"] = "get-of-present-identity"
                 return out
         out["pending"] = bool(s.new or s.dirty or s.deleted)
+        deferred_known = deferred_pre = None
+        if rd["kind"] == "deferred":
+            # the collections under test are built by the post-load SELECTs only for
+            # instances that have the attribute unloaded.  Same rule as for lazy loads: it is
+            # unloaded at the moment of the fetch in *both* twins - on every lead-class
+            # instance already in the session that holds it loaded and unmodified (both
+            # twins, now), and on those the explicit flush's own cascade loads bring in or
+            # populate (twin B, after its flush)
+            Kd = zoo.cls[rd["cls"]]
+            inst = [o for o in list(s.identity_map.values()) if isinstance(o, Kd)]
+            deferred_known = {id(o) for o in inst}
+            deferred_pre = [o for o in inst if rd["rel"] in o.__dict__
+                            and not sa.inspect(o).attrs[rd["rel"]].history.has_changes()]
+            with s.no_autoflush:
+                for o in deferred_pre:
+                    s.expire(o, [rd["rel"]])
         m0 = spy.mark()
         if mode == "explicit":
             try:
@@ -555,6 +678,15 @@ def run_twin(sa, orm, R, zoo, engine, spy, hist, rd, mode):
                 return out
         out["flush_log"] = stmts(spy.since(m0, kinds=("execute", "executemany")))
         out["flush_dml"] = flat_dml(spy.since(m0, kinds=("execute", "executemany")))
+        if mode == "explicit" and rd["kind"] == "deferred":
+            Kd = zoo.cls[rd["cls"]]
+            pre_ids = {id(o) for o in deferred_pre}
+            with s.no_autoflush:
+                for o in list(s.identity_map.values()):
+                    if (isinstance(o, Kd) and rd["rel"] in o.__dict__ and sa.inspect(o).persistent
+                            and (id(o) in pre_ids or id(o) not in deferred_known)):
+                        out["reexpired_after_flush"] = True
+                        s.expire(o, [rd["rel"]])
         if mode == "explicit" and rd["kind"] == "lazy":
             # "the same read" must be a lazy load in both twins: the explicit flush may
             # itself have loaded the attribute as a side effect (its cascade loads run
@@ -636,6 +768,11 @@ def run(ctx):
                     break
                 hist = gen_history(rng, zoo, pop)
                 rd = gen_read(rng, zoo, pop, hist)
+                if rd["kind"] == "deferred":
+                    # the lead rows are fetched from an open cursor while the gap's changes are
+                    # flushed: what such a cursor shows of rows written meanwhile is SQLite's
+                    # business, so the gap does not write the lead table itself
+                    hist = [op for op in hist if not touches_table(op, rd["cls"])]
                 if ci % 3 == 0:
                     ctl = ["no_autoflush_block", "exec_option", "session_flag"][(ci // 3) % 3]
                 else:
@@ -660,8 +797,22 @@ def one_case(ctx, sa, orm, R, zoo, engines, spies, hist, rd, ctl, origin):
         # the history itself (which may autoflush while loading) behaved differently
         ctx.violation("history-outcomes-differ", f"{a['history_outcomes']} vs {b['history_outcomes']}", witness)
         return
+    if rd["kind"] == "core_dml_rowcount":
+        # the read is itself one (no-op) UPDATE: not part of the flush being compared
+        t, col = TABLE[rd["cls"]], SETTABLE[rd["cls"]][0][0]
+        own = f"SET {col}={t}.{col}"
+        for tw in (a, b):
+            for k in ("read_dml", "flush_dml"):
+                if tw.get(k):
+                    tw[k] = [x for x in tw[k] if own not in x[0]]
     dml_b = b.get("flush_dml", [])
     nontrivial = bool(dml_b)
+    if rd["kind"].startswith("core_") or rd["kind"] in ("orm_scalar", "get_one"):
+        ctx.count("entrypoint_ops")
+        if rd["kind"].startswith("core_scalar"):
+            ctx.count("core_scalar_ops")
+    if rd["kind"] == "deferred":
+        ctx.count("deferred_fetch_ops")
     ctx.case({"h": hist, "r": rd}, nontrivial=nontrivial)
     ctx.seen("read_kinds", rd["kind"])
     if rd["kind"] == "get":
@@ -681,7 +832,7 @@ def one_case(ctx, sa, orm, R, zoo, engines, spies, hist, rd, ctl, origin):
                           f"explicit flush raised {b['error']} but the autoflush twin returned {a.get('result')!r}",
                           dict(witness, twin_a=a, twin_b=b))
         return
-    if rd["kind"] == "lazy" and "error" not in a and not any(is_select(x[0]) for x in a.get("read_log", [])):
+    if rd["kind"] in ("lazy", "deferred") and "error" not in a and not any(is_select(x[0]) for x in a.get("read_log", [])):
         # a many-to-one served from the identity map: no statement, hence no autoflush is
         # due (and the foreign key attribute it is keyed on is only synchronised by a
         # flush) - outside the property, which speaks of loads that query the database
@@ -749,12 +900,16 @@ def one_case(ctx, sa, orm, R, zoo, engines, spies, hist, rd, ctl, origin):
                       f"DML during the autoflushing read {dml_a[:4]} != DML of the explicit flush {dml_b[:4]}",
                       dict(witness, twin_a=a, twin_b=b))
         return
-    if dml_b:
+    if dml_b and rd["kind"] == "core_dml_rowcount":
+        ctx.count("autoflush_dml_observed")     # (the read is DML itself: no SELECT to order against)
+    elif dml_b:
         ctx.count("autoflush_dml_observed")
         idx_dml = max(i for i, x in enumerate(log_a) if is_dml(x[0]))
         sel = [i for i, x in enumerate(log_a) if is_select(x[0])]
         q2 = [x for x in b["read_log"] if is_select(x[0])]
-        if q2:
+        if q2 and rd["kind"] != "deferred":
+            # (a deferred fetch runs several post-load SELECTs whose exact set depends on what
+            # the flush's own cascade loads left in the identity map: weaker rule below)
             # the reference twin's read emitted SELECTs: the same statements must close the
             # autoflush twin's log, after every DML statement
             tail = [x[0] for x in log_a[-len(b["read_log"]):]]
